@@ -71,6 +71,10 @@ D5 = "a list/enum/term item that starts right after '[' inside a context where t
 kf("K6-C08", "D5 list-after-bracket-unbreakable", "C08", r"^C08\|tokens-moved-between-markup-nodes\|", "*#[- foo\n\n  bar\n]*", D5, "tokens-moved-between-markup-nodes")
 kf("K6-C01", "D5 list-after-bracket-unbreakable", "C01", r"^C01\|tree\|(spine=(strong|mixed|heading|item)/|(.*&)?dev=markup:\w*>(Strong|Emph|Heading|ListItem|EnumItem|TermItem|Markup|ContentBlock)\[[^\]]*(Marker|Hash|LeftBracket|RightBracket|Star|Underscore)[^\]]*\])", "*#[- foo\n\n  bar\n]*", D5, "tree")
 
+K13 = "a lone '-' next to the closing ']' of a content block whose last element is a list item: as plain text ('-]') it becomes an empty item when the bracket is moved to its own line; as an empty item ('- ]') it becomes plain text when the blank before ']' is dropped"
+kf("K13-C02", "lone marker next to ']'", "C02", r"^C02\|rendering-differs\|(spine|dev=.*\|at)=\S*/list_nest_empty", PRELUDE + "#{\n  [- foo\n    -]\n}", K13, "rendering-differs")
+kf("K13-C13", "lone marker next to ']'", "C13", r"^C13\|splice-changes-tree\|(spine|dev=.*\|at|extra=damage:\w+@\d+:\S*)[=/]\S*list_nest_empty", "#g[\n  - foo\n    -]", K13 + " (range formatting of the call or the document)", "splice-changes-tree")
+kf("K8m-C03", "block comment with a blank-only line inside math call arguments", "C03", r"^C03\|not-idempotent\|(.*&)?dev=math:Args>(FuncCall|Named|Spread)\[[^\]]*\]:bc_ws_line", "$fn(k/*c1\n    d\n  \n    e*/: x)$", "a multi-line block comment with a whitespace-only line inside the arguments of a math function call, at a width where the call just fits: the first pass breaks the arguments, the second (which sees the blank line emptied by the trailing-blank pass) keeps them on one line", "not-idempotent")
 kf("K13-C01", "lone marker-like text before ']'", "C01", r"^C01\|tree\|(spine|dev=.*\|at)=\S*/list_nest_empty", "#{\n  [- foo\n    -]\n}", "a lone '-' (or '+', '=') that is plain text because ']' follows it directly, at the start of the last line of a multi-line content block whose last element is a list item: the closing bracket is moved to its own line (the repair of P14) and the token becomes an empty list item", "tree")
 
 # --------------------------------------------------------------------------- K7: parentheses around a literal removed before text (P1)
